@@ -3,6 +3,7 @@
 package main
 
 import (
+	"errors"
 	"fmt"
 	"sort"
 	"strings"
@@ -25,6 +26,7 @@ func runC15(c *Ctx) {
 		c.Note("C15: the white-box wrapper around the identifier counter does not compile against this tree; the counter-level enumeration and the 65,535-step history are skipped, counter starts come from the (harness-owned) random source only")
 	}
 	c15Concurrent(c)
+	c15FailedWrite(c)
 	c15CallerSupplied(c)
 	c15Mixed(c)
 	c15ThroughRetryClient(c)
@@ -170,9 +172,93 @@ func c15Concurrent(c *Ctx) {
 	}
 }
 
+// (b') a request whose write fails (the link stays up, e.g. a write deadline) while another request
+// is outstanding, followed by a further request: what is outstanding must still be distinct.
+func c15FailedWrite(c *Ctx) {
+	kinds := []string{"p1", "p2", "sub", "unsub"}
+	p := 1
+	if c.Thorough() {
+		p = 2
+	}
+	c.Bound("failed-write", fmt.Sprintf("two concurrent callers: kind A in %v whose first write fails while the link stays up, kind B in %v left unacknowledged; then a third request; identifiers of the requests that reached the peer and are unacknowledged must be distinct; fine-grained mode, P<=%d", kinds, kinds, p))
+	issue := func(cli *mqtt.BaseClient, ctx vctx.Context, k, tag string) {
+		switch k {
+		case "p1":
+			cli.Publish(ctx, &mqtt.Message{Topic: "t", QoS: mqtt.QoS1, Payload: []byte(tag)})
+		case "p2":
+			cli.Publish(ctx, &mqtt.Message{Topic: "t", QoS: mqtt.QoS2, Payload: []byte(tag)})
+		case "sub":
+			cli.Subscribe(ctx, mqtt.Subscription{Topic: tag, QoS: mqtt.QoS1})
+		case "unsub":
+			cli.Unsubscribe(ctx, tag)
+		}
+	}
+	typeOf := map[string]byte{"p1": env.PUBLISH, "p2": env.PUBLISH, "sub": env.SUBSCRIBE, "unsub": env.UNSUBSCRIBE}
+	for _, a := range kinds {
+		for _, b := range kinds {
+			a, b := a, b
+			var net *env.Net
+			var ids []uint16
+			sc := &vrt.Scenario{
+				Name:  fmt.Sprintf("C15/failed-write/%s-fails+%s", a, b),
+				Bound: vrt.Budget{P: p},
+				Cfg:   vrt.Config{Fine: true, Horizon: int64(30 * time.Second), StepCap: 400000},
+				Body: func() {
+					net = env.NewNet()
+					s := env.NewScript(net)
+					s.AutoConnAck = true
+					failed := false
+					s.TransientFail = func(pk *env.Packet) bool {
+						// the first request of kind A (recognised by its tag) fails once
+						if failed || pk.Type != typeOf[a] {
+							return false
+						}
+						isA := string(pk.Payload) == "A" || len(pk.Filters) == 1 && pk.Filters[0] == "A"
+						if isA {
+							failed = true
+						}
+						return isA
+					}
+					cli := &mqtt.BaseClient{Transport: s.Conn}
+					vrt.W.RandInt31n = func(n int32) int32 { return 100 }
+					if _, err := cli.Connect(vctx.Background(), "c15"); err != nil {
+						vrt.Failf("harness", "connect: %v", err)
+						return
+					}
+					ctx, cancel := vctx.WithCancel(vctx.Background())
+					vrt.Go("caller-A-"+a, func() { issue(cli, ctx, a, "A") })
+					vrt.Go("caller-B-"+b, func() { issue(cli, ctx, b, "B") })
+					vrt.Settle()
+					vrt.Go("caller-Z", func() { issue(cli, ctx, "p1", "Z") })
+					vrt.Settle()
+					ids = ids[:0]
+					seen := map[uint16]string{}
+					for _, pk := range s.Got {
+						if pk.Type != env.PUBLISH && pk.Type != env.SUBSCRIBE && pk.Type != env.UNSUBSCRIBE {
+							continue
+						}
+						ids = append(ids, pk.ID)
+						if pk.ID == 0 {
+							vrt.Failf("c15/zero-id", "a request carries identifier 0: %v", net.TraceStrings())
+						}
+						if prev, ok := seen[pk.ID]; ok {
+							vrt.Failf("c15/duplicate-outstanding-id", "identifier %d is carried by two outstanding requests (%s and %s) after the write of another request had failed:\n  %s", pk.ID, prev, pk, strings.Join(net.TraceStrings(), "\n  "))
+						}
+						seen[pk.ID] = pk.String()
+					}
+					cancel()
+					vrt.Quiesce()
+				},
+				Observe: func() uint64 { return net.TraceHash() },
+			}
+			c.Explore(sc)
+		}
+	}
+}
+
 // (c) an identifier the caller put on the message is used unchanged.
 func c15CallerSupplied(c *Ctx) {
-	c.Bound("caller-supplied", "Publish QoS1/QoS2 with Message.ID in {1,2,0x00FF,0x0100,0x7FFF,0xFFFF} and counter start values {1,0xFFFE}")
+	c.Bound("caller-supplied", "Publish QoS1/QoS2 with Message.ID in {1,2,0x00FF,0x0100,0x7FFF,0xFFFF} and counter start values {1,0xFFFE}; the first attempt answered, or unanswered and given up after 2 s and then repeated on the same connection through the retry handle / by a second Publish")
 	var net *env.Net
 	sc := &vrt.Scenario{
 		Name: "C15/caller-supplied",
@@ -180,9 +266,14 @@ func c15CallerSupplied(c *Ctx) {
 			net = env.NewNet()
 			s := env.NewScript(net)
 			s.AutoConnAck = true
+			unanswered := 0
 			s.OnPacket = func(_ *env.Script, p *env.Packet) {
 				switch p.Type {
 				case env.PUBLISH:
+					if unanswered > 0 {
+						unanswered--
+						return
+					}
 					if p.QoS == 1 {
 						s.Conn.Send(env.EncAck(env.PUBACK, p.ID), "")
 					} else if p.QoS == 2 {
@@ -203,7 +294,32 @@ func c15CallerSupplied(c *Ctx) {
 			id := idv[vrt.Choose(vrt.KFree, len(idv), "id")]
 			q := mqtt.QoS(1 + vrt.Choose(vrt.KFree, 2, "qos"))
 			m := &mqtt.Message{Topic: "t", QoS: q, Payload: []byte("x"), ID: id}
-			if err := cli.Publish(vctx.Background(), m); err != nil {
+			// optionally the first attempt stays unanswered and is given up on its deadline; the message is
+			// then sent again on the same (still open) connection, through the retry handle or by a
+			// second Publish of the same message
+			again := vrt.Choose(vrt.KFree, 3, "first attempt: answered / unanswered then retry handle / unanswered then Publish again")
+			if again > 0 {
+				unanswered = 1
+				ctx, cancel := vctx.WithTimeout(vctx.Background(), 2*time.Second)
+				err := cli.Publish(ctx, m)
+				cancel()
+				if err == nil {
+					vrt.Failf("harness", "the unanswered publish returned nil")
+					return
+				}
+				if again == 1 {
+					var rt mqtt.ErrorWithRetry
+					if !errors.As(err, &rt) {
+						vrt.Failf("harness", "the abandoned publish returned %v, which carries no retry handle", err)
+						return
+					}
+					if err := rt.Retry(vctx.Background(), cli); err != nil {
+						vrt.Failf("c15/caller-id-publish-failed", "retrying the publish with caller-supplied id %d on the same connection: %v", id, err)
+					}
+				} else if err := cli.Publish(vctx.Background(), m); err != nil {
+					vrt.Failf("c15/caller-id-publish-failed", "second publish with caller-supplied id %d: %v", id, err)
+				}
+			} else if err := cli.Publish(vctx.Background(), m); err != nil {
 				vrt.Failf("c15/caller-id-publish-failed", "publish with caller-supplied id %d: %v", id, err)
 			}
 			for _, p := range s.Got {
